@@ -4,21 +4,60 @@ import (
 	"fmt"
 )
 
-// Heap: shared immutable base (objects created by package initialisers) + per-state overlay.
+// Heap: shared immutable base (objects created by package initialisers) + a persistent chain of
+// per-state overlays. Forking a state freezes its heap and gives both sides an empty child, so
+// a fork costs O(1) and a merge only looks at objects written since the common ancestor.
 type Heap struct {
-	over map[ObjID]Value
+	over   map[ObjID]Value
+	parent *Heap
+	depth  int
+	frozen bool
 }
 
-func (h *Heap) clone() *Heap {
-	n := &Heap{over: make(map[ObjID]Value, len(h.over)+4)}
-	for k, v := range h.over {
-		n.over[k] = v
+func newHeap() *Heap { return &Heap{over: map[ObjID]Value{}} }
+
+func (h *Heap) lookup(id ObjID) (Value, bool) {
+	for x := h; x != nil; x = x.parent {
+		if v, ok := x.over[id]; ok {
+			return v, true
+		}
 	}
-	return n
+	return nil, false
+}
+
+func (h *Heap) set(id ObjID, v Value) {
+	if h.frozen {
+		panic("engine: write to a frozen heap")
+	}
+	h.over[id] = v
+}
+
+// all returns every entry visible in h (youngest wins).
+func (h *Heap) all() map[ObjID]Value {
+	out := map[ObjID]Value{}
+	var chain []*Heap
+	for x := h; x != nil; x = x.parent {
+		chain = append(chain, x)
+	}
+	for i := len(chain) - 1; i >= 0; i-- {
+		for k, v := range chain[i].over {
+			out[k] = v
+		}
+	}
+	return out
+}
+
+// child freezes h and returns a fresh overlay on top of it.
+func (h *Heap) child() *Heap {
+	h.frozen = true
+	if h.depth >= 32 {
+		return &Heap{over: h.all()}
+	}
+	return &Heap{over: map[ObjID]Value{}, parent: h, depth: h.depth + 1}
 }
 
 func (e *Engine) heapGet(h *Heap, id ObjID) Value {
-	if v, ok := h.over[id]; ok {
+	if v, ok := h.lookup(id); ok {
 		return v
 	}
 	if v, ok := e.base[id]; ok {
@@ -30,34 +69,61 @@ func (e *Engine) heapGet(h *Heap, id ObjID) Value {
 func (e *Engine) newObj(h *Heap, content Value) ObjID {
 	e.nextObj++
 	id := e.nextObj
-	h.over[id] = content
+	h.set(id, content)
 	return id
 }
 
-// mergeHeaps returns ite(g, a, b) object-wise.
+// mergeHeaps returns ite(g, a, b) object-wise; only objects written since the common ancestor of
+// a and b are looked at.
 func (e *Engine) mergeHeaps(g *T, a, b *Heap) *Heap {
-	out := &Heap{over: make(map[ObjID]Value, len(a.over)+len(b.over))}
-	for id, va := range a.over {
-		vb, ok := b.over[id]
-		if !ok {
-			if bb, okb := e.base[id]; okb {
-				out.over[id] = e.Merge(g, va, bb)
-			} else {
-				out.over[id] = va
-			}
-			continue
-		}
-		out.over[id] = e.Merge(g, va, vb)
+	anc := map[*Heap]bool{}
+	for x := a; x != nil; x = x.parent {
+		anc[x] = true
 	}
-	for id, vb := range b.over {
-		if _, ok := a.over[id]; ok {
-			continue
+	var common *Heap
+	for x := b; x != nil; x = x.parent {
+		if anc[x] {
+			common = x
+			break
 		}
-		if ba, oka := e.base[id]; oka {
-			out.over[id] = e.Merge(g, ba, vb)
-		} else {
+	}
+	keys := map[ObjID]bool{}
+	for x := a; x != common; x = x.parent {
+		for k := range x.over {
+			keys[k] = true
+		}
+	}
+	for x := b; x != common; x = x.parent {
+		for k := range x.over {
+			keys[k] = true
+		}
+	}
+	out := &Heap{over: make(map[ObjID]Value, len(keys))}
+	if common != nil {
+		common.frozen = true
+		out.parent, out.depth = common, common.depth+1
+	}
+	get := func(h *Heap, id ObjID) (Value, bool) {
+		if v, ok := h.lookup(id); ok {
+			return v, true
+		}
+		v, ok := e.base[id]
+		return v, ok
+	}
+	for id := range keys {
+		va, oka := get(a, id)
+		vb, okb := get(b, id)
+		switch {
+		case oka && okb:
+			out.over[id] = e.Merge(g, va, vb)
+		case oka:
+			out.over[id] = va
+		default:
 			out.over[id] = vb
 		}
+	}
+	if out.depth >= 32 {
+		return &Heap{over: out.all()}
 	}
 	return out
 }
@@ -198,7 +264,7 @@ func (e *Engine) Store(st *St, p *PtrV, v Value, what string) {
 		}
 		e.noteWrite(st, a.Obj, a.G)
 		old := e.heapGet(st.heap, a.Obj)
-		st.heap.over[a.Obj] = e.storePath(old, a.Path, v, a.G)
+		st.heap.set(a.Obj, e.storePath(old, a.Path, v, a.G))
 	}
 }
 
